@@ -181,6 +181,31 @@ def run(ctx):
         ctx.holds("Y4", "%s and the %d module function(s) it calls store nothing under the keys %s of a definition"
                   % (R.add_commands.qualname, len(seen_f) - 1, sorted(keys)))
 
+    # ---- Y5 -----------------------------------------------------------------------
+    ctx.rule("Y5", "a definition's `type` may be a list: it is never used as a dictionary key / set member")
+    n5 = 0
+    for g in R.cmod.all_funcs():
+        for n in walk_no_nested(g.node):
+            key = None
+            if isinstance(n, ast.Call) and isinstance(n.func, ast.Attribute) and n.func.attr in ("get", "setdefault", "pop") and n.args \
+                    and not (isinstance(n.func.value, ast.Name) and n.func.value.id in ("os",)):
+                key = n.args[0]
+            elif isinstance(n, ast.Subscript) and not isinstance(n.slice, (ast.Slice, ast.Constant)):
+                key = n.slice
+            if key is None:
+                continue
+            # the key itself is <definition>["type"] (of a slot or of its extra_arg)
+            if isinstance(key, ast.Subscript) and isinstance(key.slice, ast.Constant) and key.slice.value == "type" \
+                    and not (isinstance(n, ast.Subscript) and n is key):
+                recv_ = n.func.value if isinstance(n, ast.Call) else n.value
+                # mappings only: a list indexed by a type would be a TypeError of another kind, not our concern
+                n5 += 1
+                ctx.violation("Y5", g, "type-as-key:%s" % norm(key)[:30], "%s looks %s up in %s: the `type` of a definition may be written as a list "
+                              "(['string', 'stringlist']), which is not hashable" % (g.qualname, norm(key)[:40], norm(recv_)[:30]), node=n,
+                              witness="a registered command whose tag parameter has a list type makes parse() raise TypeError on a rejected use")
+    if not n5:
+        ctx.holds("Y5", "no mapping in commands.py is keyed by a definition's `type`")
+
     # ---- Y3 -----------------------------------------------------------------------
     c01.t2(ctx, R)
     c01.t5(ctx, R)
